@@ -159,6 +159,8 @@ def isContinuation (pr : Dict Str (Option Str)) : Bool :=
 
 /-- `_close_table_cell` -/
 def closeTableCell (dup : Bool) (s : DC) (tc : Xml) : M DC :=
+  -- a cell without any paragraph has produced nothing: its neighbours are left alone
+  if (elemDepth tc).isNone then pure s else
   (gatherPr tc) >>= fun pr =>
   (captureRow s.root) >>= fun cap =>
   match cap with
